@@ -1,9 +1,211 @@
 package main
 
 import (
+	"flag"
 	"fmt"
-
-	"golang.org/x/tools/go/packages"
+	"os"
+	"path/filepath"
+	"sort"
+	"strings"
+	"sync"
+	"time"
 )
 
-func main() { fmt.Println(packages.NeedSyntax) }
+var (
+	repoRoot  = "/repo"
+	verifRoot = "/verif"
+)
+
+func main() {
+	if len(os.Args) < 2 {
+		usage()
+	}
+	defer cleanupScratch()
+	switch os.Args[1] {
+	case "check":
+		os.Exit(cmdCheck(os.Args[2:]))
+	case "func":
+		os.Exit(cmdFunc(os.Args[2:]))
+	case "replay":
+		os.Exit(cmdReplay(os.Args[2:]))
+	case "selftest":
+		os.Exit(cmdSelftest(os.Args[2:]))
+	default:
+		usage()
+	}
+}
+
+func usage() {
+	fmt.Fprintln(os.Stderr, "usage: govc check <property> [quick|thorough] | func <pkg> <key> [-dump dir] | replay <file> | selftest [property]")
+	os.Exit(2)
+}
+
+// solveAll discharges obligations in parallel.
+func solveAll(obs []*Obligation, tier string, par int) {
+	quickT, thoroughT := 10, 60
+	var wg sync.WaitGroup
+	sem := make(chan struct{}, par)
+	for _, o := range obs {
+		wg.Add(1)
+		sem <- struct{}{}
+		go func(o *Obligation) {
+			defer wg.Done()
+			defer func() { <-sem }()
+			t := quickT
+			if tier == "thorough" {
+				t = thoroughT
+			}
+			if o.Timeout > 0 {
+				t = o.Timeout
+				if tier == "thorough" {
+					t *= 3
+				}
+			}
+			if o.Cover {
+				v := Solve(o.Query(false), 5, false, []string{"z3-new"})
+				o.Verdict = v
+				switch v.Result {
+				case "sat":
+					o.Status = "cover-ok"
+				case "unsat":
+					o.Status = "cover-failed"
+				default:
+					o.Status = "cover-unknown"
+				}
+				return
+			}
+			v := Solve(o.Query(true), t, tier == "thorough" && os.Getenv("GOVC_CROSS") != "", o.Backends)
+			o.Verdict = v
+			switch v.Result {
+			case "unsat":
+				o.Status = "discharged"
+			case "sat":
+				o.Status = "refuted"
+			default:
+				o.Status = "undecided"
+			}
+		}(o)
+	}
+	wg.Wait()
+}
+
+func cmdFunc(args []string) int {
+	fs := flag.NewFlagSet("func", flag.ExitOnError)
+	dump := fs.String("dump", "", "directory to dump SMT queries into")
+	tier := fs.String("tier", "quick", "tier")
+	root := fs.String("root", repoRoot, "repository root")
+	fs.Parse(args)
+	rest := fs.Args()
+	if len(rest) < 1 {
+		usage()
+	}
+	rel := rest[0]
+	prog, err := LoadProgram(*root, append([]string{rel}, extraPkgs(rel)...), nil)
+	if err != nil {
+		fmt.Fprintln(os.Stderr, "load:", err)
+		return 2
+	}
+	pk := prog.byRel[rel]
+	if pk == nil || pk.contracts == nil {
+		fmt.Fprintln(os.Stderr, "no contracts for", rel)
+		return 2
+	}
+	var reps []*FuncReport
+	want := map[string]bool{}
+	for _, k := range rest[1:] {
+		want[k] = true
+	}
+	for _, key := range pk.contracts.FuncOrder {
+		fc := pk.contracts.Funcs[key]
+		if len(want) > 0 && !want[key] {
+			continue
+		}
+		if fc.Assumed {
+			continue
+		}
+		reps = append(reps, VerifyFunc(prog, pk, fc, *tier))
+	}
+	for _, lm := range pk.contracts.Lemmas {
+		if len(want) > 0 && !want[lm.Name] {
+			continue
+		}
+		reps = append(reps, VerifyLemma(prog, pk, lm, *tier))
+	}
+	var all []*Obligation
+	for _, r := range reps {
+		all = append(all, r.Obligs...)
+	}
+	if *dump != "" {
+		os.MkdirAll(*dump, 0o755)
+		for _, o := range all {
+			os.WriteFile(filepath.Join(*dump, strings.NewReplacer("/", "_", ":", "_").Replace(o.Name)+".smt2"), []byte(o.Query(true)), 0o644)
+		}
+	}
+	start := time.Now()
+	solveAll(all, *tier, 16)
+	bad := 0
+	for _, r := range reps {
+		fmt.Printf("== %s (%s, mode %s) %d obligations\n", r.Name, r.Kind, r.Mode, len(r.Obligs))
+		if r.Err != "" {
+			fmt.Printf("   ERROR: %s\n", r.Err)
+			bad++
+		}
+		for _, o := range r.Obligs {
+			mark := "ok "
+			if o.Status != "discharged" && o.Status != "cover-ok" {
+				mark = "BAD"
+				bad++
+			}
+			fmt.Printf("   %s %-12s %-8s %5dms %s  [%s] %s\n", mark, o.Status, o.Verdict.Backend, o.Verdict.Ms, o.Name, o.Pos, o.Text)
+			if o.Status == "refuted" {
+				fmt.Printf("       model: %s\n", strings.ReplaceAll(modelSummary(o), "\n", " "))
+			}
+			if o.Status == "undecided" && os.Getenv("GOVC_VERBOSE") != "" {
+				fmt.Printf("       out: %s\n", o.Verdict.Output)
+			}
+		}
+		for _, t := range r.Trusted {
+			fmt.Printf("   trusted: %s\n", t)
+		}
+	}
+	fmt.Printf("%d obligations, %d not ok, %.1fs\n", len(all), bad, time.Since(start).Seconds())
+	if bad > 0 {
+		return 1
+	}
+	return 0
+}
+
+func modelSummary(o *Obligation) string {
+	lines := strings.Split(o.Verdict.Output, "\n")
+	var out []string
+	for _, l := range lines[1:] {
+		l = strings.TrimSpace(l)
+		if l != "" {
+			out = append(out, l)
+		}
+	}
+	s := strings.Join(out, " ")
+	if len(s) > 600 {
+		s = s[:600] + "..."
+	}
+	return s
+}
+
+func sortedKeys(m map[string]bool) []string {
+	var out []string
+	for k := range m {
+		out = append(out, k)
+	}
+	sort.Strings(out)
+	return out
+}
+
+// extraPkgs lists packages whose contracts a package's functions rely on (callee contracts live with the callee).
+func extraPkgs(rel string) []string {
+	return pkgDeps[rel]
+}
+
+var pkgDeps = map[string][]string{}
+
+func cmdReplay(args []string) int   { fmt.Println("replay: not implemented yet"); return 2 }
+func cmdSelftest(args []string) int { fmt.Println("selftest: not implemented yet"); return 2 }
